@@ -78,6 +78,50 @@ fn s08_one<T: Real>(kind: Kind, n: usize, dir: FftDirection, rng: &mut Rng, rep:
         Some(f) => f,
         None => return,
     };
+    s08_fft::<T>(fft, n, tag, rng, rep);
+}
+
+/// instances built directly through the public constructors, in shapes no planner picks: Bluestein with an inner length
+/// well above 2n - 1 (padding stretches), Rader / mixed radix / Good-Thomas over planned inner transforms
+fn s08_direct<T: Real>(rng: &mut Rng, rep: &mut Report) {
+    use rustfft::algorithm::*;
+    for dir in [FftDirection::Forward, FftDirection::Inverse] {
+        for (len, m) in [(2usize, 8usize), (3, 8), (5, 16), (7, 32), (9, 32), (10, 32), (11, 32), (13, 64), (21, 64), (37, 128), (100, 512), (61, 256)] {
+            let built = catch(|| -> Arc<dyn Fft<T>> { Arc::new(BluesteinsAlgorithm::new(len, Arc::new(Radix4::new(m, dir)) as Arc<dyn Fft<T>>)) });
+            match built {
+                Ok(f) => s08_fft::<T>(f, len, format!("direct/{}/(Bluesteins {} (Radix4 {}))/{}", T::NAME, len, m, dir_name(dir)), rng, rep),
+                Err(e) => rep.fail(format!("ctor-panic direct/{}/(Bluesteins {} (Radix4 {}))", T::NAME, len, m), e),
+            }
+        }
+        for p in [5usize, 17, 97, 257] {
+            let built = catch(|| -> Arc<dyn Fft<T>> {
+                let inner = rustfft::FftPlannerScalar::<T>::new().plan_fft(p - 1, dir);
+                Arc::new(RadersAlgorithm::new(inner))
+            });
+            if let Ok(f) = built {
+                s08_fft::<T>(f, p, format!("direct/{}/(Raders planned {})/{}", T::NAME, p - 1, dir_name(dir)), rng, rep);
+            }
+        }
+        for (a, b) in [(59usize, 4usize), (8, 83), (9, 59)] {
+            let built = catch(|| -> Arc<dyn Fft<T>> {
+                let mut pl = rustfft::FftPlannerScalar::<T>::new();
+                Arc::new(MixedRadix::new(pl.plan_fft(a, dir), pl.plan_fft(b, dir)))
+            });
+            if let Ok(f) = built {
+                s08_fft::<T>(f, a * b, format!("direct/{}/(MixedRadix planned {} planned {})/{}", T::NAME, a, b, dir_name(dir)), rng, rep);
+            }
+            let built = catch(|| -> Arc<dyn Fft<T>> {
+                let mut pl = rustfft::FftPlannerScalar::<T>::new();
+                Arc::new(GoodThomasAlgorithm::new(pl.plan_fft(a, dir), pl.plan_fft(b, dir)))
+            });
+            if let Ok(f) = built {
+                s08_fft::<T>(f, a * b, format!("direct/{}/(GoodThomas planned {} planned {})/{}", T::NAME, a, b, dir_name(dir)), rng, rep);
+            }
+        }
+    }
+}
+
+fn s08_fft<T: Real>(fft: Arc<dyn Fft<T>>, n: usize, tag: String, rng: &mut Rng, rep: &mut Report) {
     let advs = [fft.get_inplace_scratch_len(), fft.get_outofplace_scratch_len(), fft.get_immutable_scratch_len()];
     let chunks = 1 + rng.below(2) as usize;
     let data = random_vec::<T>(rng, n * chunks);
@@ -136,6 +180,13 @@ pub fn s08(args: &[String]) {
         }
         shared.merge(rep);
     });
+    {
+        let mut rep = Report::default();
+        let mut rng = Rng::new(seed ^ 0xD1);
+        s08_direct::<f32>(&mut rng, &mut rep);
+        s08_direct::<f64>(&mut rng, &mut rep);
+        shared.merge(rep);
+    }
     shared.into_inner().print("S08-scratch", "one case per (planner, type, n, entry point, scratch length, fill); 1-2 chunks of normal random data; output buffer pre-filled like the scratch; non-trivial = n >= 2");
 }
 
